@@ -69,6 +69,24 @@ def znormWindow (A : Arith α) (dist : List α) (window : Nat) : Except PIErr (L
   let out ← stepFilterE (zCenter A) nonzero window
   pure (reinsertZeros zeroIdx out)
 
+/-- `_stepFilter(f, dist, window, useEdgePadding)` for a filter function that can raise, both padding modes: without
+padding only the positions whose whole window lies inside the series are filtered, the others are copied -/
+def stepFilterEP (f : List α → Except PIErr α) (dist : List α) (window : Nat) (pad : Bool) : Except PIErr (List α) :=
+  dist.zipIdx.mapM fun vx =>
+    if pad || (decide (window / 2 ≤ vx.2) && decide (vx.2 + window / 2 < dist.length)) then
+      f (Numeric.dataToFilter dist vx.1 vx.2 (window / 2))
+    else pure vx.1
+
+/-- `my_math.znormWindowFilter(dist, window, useEdgePadding, filterZeroValues)` with its inner `znormalizeCenterVal`
+(`zCenter`): all four option combinations -/
+def znormWindowFilter (A : Arith α) (dist : List α) (window : Nat) (pad fz : Bool) : Except PIErr (List α) :=
+  if !fz then stepFilterEP (zCenter A) dist window pad
+  else do
+    let nonzero := dist.filter fun v => decide (Tm.zero < v)
+    let zeroIdx := (dist.zipIdx.filter fun vx => !decide (Tm.zero < vx.1)).map (·.2)
+    let out ← stepFilterEP (zCenter A) nonzero window pad
+    pure (reinsertZeros zeroIdx out)
+
 /-- `utils.getValuesInInterval` on (time, f0, intensity) rows — the same test as `valuesInInterval` in `Query.lean` -/
 def samplesIn (data : List (α × α × α)) (s e : α) : List (α × α × α) :=
   data.filter fun d => decide (s ≤ d.1) && decide (d.1 ≤ e)
